@@ -14,7 +14,7 @@
     per command line per buffer; correspondence with the extracted table model (coq/UndoBufsDefs.v: BufsDefs with the edit
     log of UndoDefs in every slot) on the same histories.
 (4) LARGE histories: at the line-buffer interface operation lists that log 100..5000 entries (thorough: 12000; probe-only lists
-    to 9000 / 40000), steps of 1..1500 entries between two command boundaries, totals aimed at the growth points of hist[]
+    to 9000 / 20000), steps of 1..1500 entries between two command boundaries, totals aimed at the growth points of hist[]
     (HIST_INIT * 2^k, +-1) and at typical cap values, followed by COMPLETE undo and redo walks (with and without the bump the
     editor makes after every u / redo), probe vs. extracted model vs. stack oracle after every operation; end to end `:%s`, `:g`,
     `:v`, range `s`, counted `>>` / `<<` / `.` over files of 129 .. 2600 lines (every line carries its identity), two to four such
@@ -282,7 +282,19 @@ def big_steps(rng, total, profile):
     return sizes
 
 
+BIG_MAX_OPS = 60000          # harness/probe_undo.c splits a request into at most 65536 words
+
+
 def big_case(rng, total, profile, hist_init):
+    c = big_case1(rng, total, profile, hist_init)
+    for prof in ('mixed', 'equal', 'one'):
+        if c[1]['ops'] <= BIG_MAX_OPS:
+            break
+        c = big_case1(rng, total, prof, hist_init)
+    return c
+
+
+def big_case1(rng, total, profile, hist_init):
     nl0 = rng.range(2, 5)
     init = b''.join(b'%c\n' % (65 + i) for i in range(nl0))
     nl = nl0
@@ -1455,8 +1467,8 @@ def run(ctx):
     r8 = rng.fork('lbuf-big')
     bigm = big_cases(r8, hist_init, ctx.quick)
     bigp = []
-    for _ in range(240 if ctx.quick else 3000):
-        t = r8.choice([r8.range(100, 2100), r8.range(1000, 5000), r8.range(2000, 9000), r8.choice(big_totals(hist_init, 9000 if ctx.quick else 40000))])
+    for _ in range(240 if ctx.quick else 800):
+        t = r8.choice([r8.range(100, 2100), r8.range(1000, 5000), r8.range(2000, 9000), r8.choice(big_totals(hist_init, 9000 if ctx.quick else 20000))])
         bigp.append(big_case(r8, t, r8.choice(['mixed', 'mixed', 'one', 'equal', 'small'] if t <= 3000 else ['mixed', 'one', 'equal']), hist_init))
     res.count('lbuf large-history lists (probe + model + oracle)', len(bigm))
     res.count('lbuf large-history lists (probe + oracle)', len(bigp))
